@@ -5,6 +5,7 @@ CONSTANTS
   Alpha = "full"
   MaxLen = 1000000
   MaxDepth = 1000
+  Lax = TRUE
 INVARIANTS WellNested ContentModelOK Lattice
 POSTCONDITION TraceAccepted
 CHECK_DEADLOCK FALSE
